@@ -288,7 +288,10 @@ def run_check(prop: str, tier: str, seed: int, jobs: int, quiet: bool = True) ->
         print(f"KNOWN-FINDING: property={prop} [{eid}] {ent['what']} (cases matched: {matched_counts[eid]})")
 
     # evidence
-    nontrivial = {r.get("digest", r["key"]) for r in results if r.get("nontrivial", True) and not r.get("skipped")}
+    nontrivial = {r.get("digest", r["key"]) for r in results if r.get("nontrivial", True) and not r.get("skipped") and "nontrivial_n" not in r}
+    # checks that loop over many cells inside one case report measured counts instead
+    evals_extra = sum(int(r.get("evals", 1)) - 1 for r in results)
+    nontrivial_extra = sum(int(r["nontrivial_n"]) for r in results if "nontrivial_n" in r)
     states = set()
     transitions = 0
     traces = 0
@@ -313,8 +316,8 @@ def run_check(prop: str, tier: str, seed: int, jobs: int, quiet: bool = True) ->
     for r in results[:: max(1, len(results) // 4)][:4]:
         samples.append({"case": case_by_key[r["key"]], "observed": r.get("sample", r.get("obs"))})
     coverage = {
-        "evaluations": len(results),
-        "distinct_nontrivial": len(nontrivial),
+        "evaluations": len(results) + evals_extra,
+        "distinct_nontrivial": len(nontrivial) + nontrivial_extra,
         "rule": getattr(mod, "RULE", ""),
         "samples": samples,
         "states": len(states),
@@ -350,10 +353,10 @@ def run_check(prop: str, tier: str, seed: int, jobs: int, quiet: bool = True) ->
         with open(os.path.join(VERIF, "evidence", prop + ".json"), "w") as fh:
             json.dump(ev, fh, indent=1, default=str)
     vac = ""
-    if len(nontrivial) < 2 or not states:
+    if len(nontrivial) + nontrivial_extra < 2 or not states:
         vac = " VACUITY-WARNING"
     print(
-        f"{prop} tier={tier} seed={seed} cases={len(results)}/{len(cases)} nontrivial={len(nontrivial)} "
+        f"{prop} tier={tier} seed={seed} cases={len(results)}/{len(cases)} evals={len(results) + evals_extra} nontrivial={len(nontrivial) + nontrivial_extra} "
         f"states={len(states)} transitions={transitions} traces={traces} paths={len(paths)} "
         f"violations={ev['violations']} known={sum(matched_counts.values())} wall={ev['wall_s']}s"
         f"{' CAPPED' if capped else ''}{vac}"
